@@ -1915,6 +1915,9 @@ pub fn check(prop: &str, line: &str) -> R {
     if out == "ok receiver-modified" {
         return Err("a copying method (`swap_adjacent(&mut self) -> Self`) modified its receiver".to_string());
     }
+    if out == "ok wrong-num-vars" {
+        return Err("the result of an operator on two-level forms has another number of variables than its operands".to_string());
+    }
     if out == "ok forms-disagree" {
         // the runner evaluates every syntactic form of an operator (owned / borrowed operands,
         // named method, assigning form) and reports when they are not all equal
